@@ -15,6 +15,12 @@
 (*                        aggregators (SoC / capacity) fed through real       *)
 (*                        LatestBatteryMetricsFetchers from fake API channels  *)
 (*            hascache, cache, cachec   projection of their _cached_metrics]   *)
+(*  kind "pool": steps = a wrapper-layer history TLC emitted (status / use /   *)
+(*     msg / tick), each step extended with obs = [soc, cap] = the latest      *)
+(*     sample delivered by the receivers obtained from the real                *)
+(*     BatteryPool.soc / BatteryPool.capacity of a real BatteryPool over a     *)
+(*     real BatteryPoolReferenceStore fed by a status channel; st "off" = the  *)
+(*     metric has not been requested, "nopub" = requested, nothing delivered.  *)
 (* An SoC observation is [st, fp, c0, c100, eq]: st "none" | "val" | "nan" |  *)
 (* "err" (the call raised); fp the value in micro-percent (rounded); c0/c100  *)
 (* the exact three-way comparison of the float with 0 and with 100; eq = the  *)
@@ -113,7 +119,7 @@ StateChecks ==
 \* how many records exercised the antecedent of each clause (vacuity guard, counted by TLC)
 ZeroEx == [wm |-> 0, zerototal |-> 0, none |-> 0, mono |-> 0, scale |-> 0, excluded |-> 0, eqlim |-> 0,
            outside |-> 0, missing |-> 0, notworking |-> 0, cap |-> 0, evict |-> 0, nandrop |-> 0, timeout |-> 0,
-           cachecmp |-> 0, resume |-> 0]
+           cachecmp |-> 0, resume |-> 0, lateuse |-> 0, latepub |-> 0, usenostatus |-> 0, poolpub |-> 0]
 DataEx(dt, W, o, c) ==
     LET e == DocSoC(dt, W)  Q == QSoC(dt, W) IN
     [ZeroEx EXCEPT
@@ -135,6 +141,7 @@ TInit ==
     /\ data = [b \in Bats |-> Empty] /\ working = Bats /\ installed = NB
     /\ due = [b \in Bats |-> MaxAge] /\ old = [b \in Bats |-> FALSE]
     /\ pub = Pub(data, working) /\ nticks = 0 /\ h = <<>>
+    /\ refW = {} /\ seen = FALSE /\ agg = [m \in Metrics |-> AggOff]
 
 Done == Say([tid |-> Tr.id, done |-> TRUE, ex |-> ex'])
 
@@ -180,5 +187,40 @@ HistStep ==
     /\ l' = l + 1 /\ UNCHANGED tid
     /\ (l' > Len(Tr.steps)) => Done
 
-TNext == HistStep \/ StateStep
+\* wrapper layer: the public streams of BatteryPool.soc / .capacity against the aggregator the
+\* specification says exists (created at first use from the store's working set at that moment)
+PoolStep ==
+    /\ Tr.kind = "pool" /\ l <= Len(Tr.steps)
+    /\ LET r == Tr.steps[l] IN
+       /\ IF l = 1 THEN r.a = "init" /\ UNCHANGED vars
+          ELSE IF r.a = "status" THEN StatusUpdate(WOf(r.w))
+          ELSE IF r.a = "use" THEN FirstUse(r.m)
+          ELSE IF r.a = "msg" THEN PoolMsg(r.b, [cap |-> r.cap, soc |-> r.soc, lo |-> r.lo, hi |-> r.hi])
+          ELSE IF r.a = "tick" THEN PoolTick
+          ELSE FALSE
+       /\ LET as == agg'["soc"]  ac == agg'["cap"]  e == PExps(agg') IN
+          /\ Check(Tup3(r.exp) = e.exp /\ Tup3(r.expc) = e.expc,
+                   "M18.Binding", <<"recorded expectation differs", r.exp, e.exp, r.expc, e.expc>>)
+          /\ IF Publishing(as) THEN SoCChecks(r.obs.soc, as.data, as.w, <<"pool.soc after", r.a>>)
+             ELSE Check(r.obs.soc.st = (IF as.on THEN "nopub" ELSE "off"), "X18.NoResultBeforeWarmUp",
+                        <<"pool.soc after", r.a, r.obs.soc.st>>)
+          /\ IF Publishing(ac) THEN CapChecks(r.obs.cap, ac.data, ac.w, <<"pool.capacity after", r.a>>)
+             ELSE Check(r.obs.cap.st = (IF ac.on THEN "nopub" ELSE "off"), "X18.NoResultBeforeWarmUp",
+                        <<"pool.capacity after", r.a, r.obs.cap.st>>)
+          /\ ex' = AddEx(ex, [ZeroEx EXCEPT
+                 !.wm = B2N(Publishing(as) /\ DocSoC(as.data, as.w)[1] = 2 /\ r.obs.soc.st = "val"),
+                 !.cap = B2N(Publishing(ac) /\ DocCap(ac.data, ac.w)[1] = 2 /\ r.obs.cap.st = "val"),
+                 !.poolpub = B2N(Publishing(as)) + B2N(Publishing(ac)),
+                 \* the metric is requested for the first time after the store has learnt that a battery
+                 \* is not working
+                 !.lateuse = B2N(r.a = "use" /\ seen /\ refW # Bats),
+                 !.usenostatus = B2N(r.a = "use" /\ ~seen),
+                 \* ... and such an aggregator publishes while a battery outside its working set has
+                 \* complete data (the value shows whether that battery is counted)
+                 !.latepub = B2N(\E m \in Metrics : Publishing(agg'[m]) /\
+                                   \E b \in Bats \ agg'[m].w : CapQual(agg'[m].data[b]))])
+    /\ l' = l + 1 /\ UNCHANGED tid
+    /\ (l' > Len(Tr.steps)) => Done
+
+TNext == HistStep \/ StateStep \/ PoolStep
 =============================================================================
